@@ -24,6 +24,12 @@ PROPS = {
     "C18": dict(units=["u_req"],
                 claim="as_reader prints and flushes a head-only 100 exactly when the continue flag is set, clears the flag and leaves the slot occupied; no writer access otherwise; lemma L-ONCE: at most one interim response, before the final one",
                 not_decided=["NOT YET UNDER CONTRACT: new_request's computation of the continue flag and the no-pre-read rule (U-NEWREQ)"]),
+    "C07": dict(units=["u_queue"],
+                claim="every MessagesQueue operation is one atomic step on the protected VecDeque (push/unblock append exactly one element and notify while holding the lock; pop/try_pop/pop_timeout remove exactly the head and hand it to exactly the caller, or change nothing); Server::recv/recv_timeout/try_recv map the outcome 1:1; lemma L-QUEUE: in every history pushed == taken ++ queue (no loss, no duplication, FIFO)",
+                not_decided=["NOT MACHINE-CHECKED: 'no lost wake-ups' is liveness; only its safety skeleton is checked (every enqueue path notifies under the lock; the blocking loops wait only after having found the queue empty under the lock)", "the connection thread's `messages.push(rq.into())` loop is a closure in lib.rs (outside extraction)"]),
+    "C17": dict(units=["u_queue"],
+                claim="unblock appends exactly one Unblock token and never removes/reorders a request; each token is consumed by exactly one receive step, which returns empty-handed (recv: Err(Other); recv_timeout/try_recv: Ok(None)); try_pop/try_recv cannot reach Condvar::wait* (blocking capability may_block() is not available to it); L-QUEUE counts tokens like requests",
+                not_decided=["NOT DECIDED: the timing bounds of recv_timeout (>= timeout, <= 2*timeout): would need a ghost clock through Instant::now / wait_timeout"]),
     "C08": dict(units=["u_pool"],
                 claim="TaskPool::spawn re-establishes the dispatch invariant (queued connections <= registered idle workers) for every queue length and idle count, and either starts a thread for the connection or queues it and notifies a waiter",
                 replays=[dict(match=r"TaskPool::spawn", bin="c08_dispatch", args=["8", "10"],
